@@ -391,7 +391,41 @@ def _hist_snapshots():
 
 
 HIST_UNIVERSE = _hist_snapshots()
-UNIVERSES = {"main": UNIVERSE, "d14b": D14B_UNIVERSE, "mut": MUT_UNIVERSE, "hist": HIST_UNIVERSE}
+
+# ---- SmartLookupDicts whose keys contain the separator: a flat key spelled like a nested path, with the nested path
+# absent / partly present / present / None; empty path components; list indices; the same data as plain dict --------
+_S = SmartLookupDict
+SMARTKEY_UNIVERSE = [
+    ("a", _S({"a:b": "flat"})),
+    ("a", _S({"a:b": "flat", "a": {"c": 1}})),
+    ("a", _S({"a:b": "flat", "a": {"b": "nested"}})),
+    ("a", _S({"a": {"b": "nested"}})),
+    ("a", _S({"a": {"b": None}, "a:b": "flat"})),
+    ("a", _S({"a": {}, "a:b": ""})),
+    ("a", {"a:b": "flat", "a": {"b": "nested"}}),
+    ("a", {"a": {"b": "nested"}}),
+    ("b", _S({"p:q:r": "flat"})),
+    ("b", _S({"p:q:r": "flat", "p": {"q": {}}})),
+    ("b", _S({"p:q:r": "flat", "p": {"q": {"r": "nested"}}})),
+    ("b", _S({"p:q": {"r": "flat"}, "p": {"x": 0}})),
+    ("b", _S({"p": {"q:r": "flat"}})),
+    ("c", _S({"": {"a": "nested"}, ":a": "flat", "a:": "flat", "a": {"": "nested"}})),
+    ("c", _S({":a": "flat", "a:": "flat"})),
+    ("c", _S({"m": [{"b": "nested"}], "m:0:b": "flat"})),
+    ("c", _S({"m": [], "m:0:b": "flat", "l": ["nested"], "l:0": "flat", "0": "flat"})),
+    ("c", _S({"l:0": "flat", "0": "flat", "l": {"0": "nested"}})),
+    ("c", _S({"l:0": "flat", "l": {0: "intkey"}})),
+    (None, _S()),
+]
+SMARTKEY_KEYS = ["a:b", "p:q:r", ":a", "a:", "m:0:b", "l:0", "p:q", "0"]
+SMARTKEY_EXPRS = (
+    [f"@data_{t}:{k}@{v}" for k in SMARTKEY_KEYS for t, v in
+     (("literal", "flat"), ("literal", "nested"), ("glob", "''"), ("re", ".+"), ("literal/i", "FLAT"), ("glob", "*e*"))]
+    + ["@data_literal:'a:b'@flat or @data_literal:\"a:b\"@nested", "not @data_glob:a:b@''", "@data_literal:a:b@flat and a",
+       "@data_literal:p:q:r@flat or @data_literal:a:b@flat", "@data_re:l:0@.+ and not @data_literal:0@flat",
+       "@data_literal:a:b@flat or b or @data_literal::a@flat"]
+)
+UNIVERSES = {"main": UNIVERSE, "d14b": D14B_UNIVERSE, "mut": MUT_UNIVERSE, "hist": HIST_UNIVERSE, "smartkeys": SMARTKEY_UNIVERSE}
 
 _E_PATS = ["1", "True", "1.0", "0", "False", "0.0", "-0.0", "''", "None", "'[]'", "'{}'", "'()'", "\u00e9", "-1",
            "1000000000000000019884624838656", "1000000000000000000000000000000"]
@@ -442,6 +476,11 @@ def lookup(data, key):
         else:
             return _NOTFOUND, True
     return cur, False
+
+
+for _k in SMARTKEY_KEYS:
+    for _sid, _d in SMARTKEY_UNIVERSE:
+        assert not lookup(_d, _k)[1], ("smartkeys universe must stay free of D14b paths", _k, _d)
 
 
 def regex_of(atom):
@@ -708,6 +747,10 @@ class C18(Check):
         for s in FIXED_REJECT:
             yield {"s": s, "exp": None, "u": "mut", "kind": "fixed"}
         # histories on one cached expression / one Matcher over a data object that changes between the calls
+        # project-own mapping type with keys that contain the path separator (flat key vs nested path)
+        for s in SMARTKEY_EXPRS:
+            self._count("smartkeys")
+            yield {"s": s, "exp": None, "u": "smartkeys", "kind": "smartkeys", "matcher": True}
         for s in HIST_EXPRS:
             self._count("history")
             yield {"s": s, "exp": None, "u": "hist", "kind": "history"}
